@@ -360,6 +360,14 @@ def hazard(r):
     pkg = cfgmod.config['bit_config']
     pick = r.randrange(12)
     try:
+        with Watchdog(3.0):
+            _hazard(pick, pkg, copy, decimal, iso8583, card, keymod, pinblock)
+    except BaseException:  # noqa
+        pass
+
+
+def _hazard(pick, pkg, copy, decimal, iso8583, card, keymod, pinblock):
+    if True:
         if pick == 0:       # a dumps that is refused part-way
             iso8583.dumps({'MTI': '1240', 'DE2': '12', 'DE3': 'abcdef', 'DE33': 'x' * 500, 'DE4': 5})
         elif pick == 1:     # a loads that is refused part-way (several elements flagged, garbage inside)
@@ -396,5 +404,3 @@ def hazard(r):
             mciipm.ipm_info(io.BytesIO(b'\x00\x00\x00\x10' + b'abcd' + bytes([0x82]) + bytes(40)))
         else:               # a parameter reader that is refused
             mciipm.IpmParamReader(io.BytesIO(mciipm.vbs_list_to_bytes([b'no trailer here'])), 'IP0040T1')
-    except BaseException:  # noqa
-        pass
